@@ -216,6 +216,8 @@ def configs(tier):
             for b in kinds:
                 if 's4' in (a, b) and (a in ('s3', 's4') and b in ('s3', 's4')):
                     continue      # > 10^5 paths: outside the bound
+                if tier == 'quick' and a == 's3' and b == 's3':
+                    continue      # thorough tier only (100 s each)
                 cf.append(dict(name='m_%s_%s_%s' % (op, a, b), op=op, a=a, b=b, W=W))
     for a in kinds:
         cf.append(dict(name='m_iter_%s' % a, op='iter', a=a, b='s1', W=W))
